@@ -41,6 +41,11 @@ Definition file_bytes (g : bytes) (t attr state : Z) (body : bytes) : bytes :=
 Definition raw_file_bytes (g : bytes) (ckh ckf t attr state : Z) (body : bytes) : bytes :=
   g ++ [ckh; ckf; t; attr] ++ le_enc 3 (24 + zlen body) ++ [state] ++ body.
 
+(* the same in the FFSv3 large-file form: size field 0xFFFFFF, 64-bit size after the 24-byte header
+   (32-byte header in all); this is the form of files of 16 MiB and more *)
+Definition raw_file_bytes_large (g : bytes) (ckh ckf t attr state : Z) (body : bytes) : bytes :=
+  g ++ [ckh; ckf; t; attr] ++ le_enc 3 16777215 ++ [state] ++ le_enc 8 (32 + zlen body) ++ body.
+
 (* ---------- volumes ---------- *)
 
 (* files in a volume: each followed by erased bytes (0xFF) up to the next 8-byte boundary *)
@@ -50,20 +55,42 @@ Fixpoint flay (files : list bytes) : bytes :=
   | f :: r => f ++ zrepeat 255 (align8 (zlen f) - zlen f) ++ flay r
   end.
 
-(* the 72-byte header of a volume with one block-map entry and no extended header *)
-Definition fv_header (zero g : bytes) (len attrs cksum reserved rev count bsize : Z) : bytes :=
-  zero ++ g ++ le_enc 8 len ++ [95; 70; 86; 72] ++ le_enc 4 attrs ++ le_enc 2 72 ++ le_enc 2 cksum ++
-  le_enc 2 0 ++ [reserved; rev] ++ le_enc 4 count ++ le_enc 4 bsize ++ zrepeat 0 8.
+(* further block-map entries after the first one *)
+Fixpoint blocks_bytes (l : list (Z * Z)) : bytes :=
+  match l with
+  | [] => []
+  | (c, s) :: r => le_enc 4 c ++ le_enc 4 s ++ blocks_bytes r
+  end.
+
+(* header length: 56 fixed bytes, the block map (first entry, [more] entries), the (0,0) terminator *)
+Definition fv_hlen (more : list (Z * Z)) : Z := 72 + 8 * Z.of_nat (length more).
+
+(* the header of a volume; [eo] is the extended-header offset field (0 = none) *)
+Definition fv_header (zero g : bytes) (len attrs cksum eo reserved rev count bsize : Z)
+           (more : list (Z * Z)) : bytes :=
+  zero ++ g ++ le_enc 8 len ++ [95; 70; 86; 72] ++ le_enc 4 attrs ++ le_enc 2 (fv_hlen more) ++
+  le_enc 2 cksum ++ le_enc 2 eo ++ [reserved; rev] ++ le_enc 4 count ++ le_enc 4 bsize ++
+  blocks_bytes more ++ zrepeat 0 8.
 
 (* the 16-bit checksum that makes the header words sum to zero *)
-Definition fv_cksum (zero g : bytes) (len attrs reserved rev count bsize : Z) : Z :=
-  (0 - sum16 (fv_header zero g len attrs 0 reserved rev count bsize)) mod 65536.
+Definition fv_cksum (zero g : bytes) (len attrs eo reserved rev count bsize : Z) (more : list (Z * Z)) : Z :=
+  (0 - sum16 (fv_header zero g len attrs 0 eo reserved rev count bsize more)) mod 65536.
+
+(* an extended header placed right after the header: volume name GUID, its own size, any
+   further header data, and the [gap] bytes up to the next 8-byte boundary where the files start *)
+Definition ext_bytes (name edata gap : bytes) : bytes :=
+  name ++ le_enc 4 (20 + zlen edata) ++ edata ++ gap.
+
+(* [ext] is either empty with eo = 0, or an extended header directly after the header *)
+Definition vol_bytes_x (zero g : bytes) (attrs reserved rev count bsize : Z) (more : list (Z * Z))
+           (eo : Z) (ext : bytes) (files : list bytes) (free : Z) : bytes :=
+  let len := fv_hlen more + zlen ext + zlen (flay files) + free in
+  fv_header zero g len attrs (fv_cksum zero g len attrs eo reserved rev count bsize more) eo reserved rev
+            count bsize more
+  ++ ext ++ flay files ++ zrepeat 255 free.
 
 Definition vol_bytes (zero g : bytes) (attrs reserved rev count bsize : Z) (files : list bytes) (free : Z)
-  : bytes :=
-  let len := 72 + zlen (flay files) + free in
-  fv_header zero g len attrs (fv_cksum zero g len attrs reserved rev count bsize) reserved rev count bsize
-  ++ flay files ++ zrepeat 255 free.
+  : bytes := vol_bytes_x zero g attrs reserved rev count bsize [] 0 [] files free.
 
 (* a file at volume offset [off] meets the data alignment its attribute bits ask for *)
 Definition file_aligned (off : Z) (fb : bytes) : bool :=
